@@ -10,6 +10,7 @@ BOUNDS = {
              '(inner stack of length 2 at any position); Or over <= 3 branches; Not; Require with item absent / None / present (non-empty, empty containers, falsy scalars) and both defaults; '
              'RunIfOutOfBounds on a 2-security tree with symbolic positions, capital and tolerance and grid targets incl. shorts; Strategy.run twice '
              'on a nested tree with logging algos',
+    'added': 'RunIfOutOfBounds with a sub-strategy among the targets (symbolic allocation to it); Require on empty containers and falsy scalars',
     'thorough': 'AlgoStack length <= 6 (every return pattern x every run_always marker pattern: 64 x 729 paths at length 6), an inner stack at every position of stacks up to length 5',
 }
 ASSUMPTIONS = ['mock algos return Python bools; falsy non-bool returns are outside the claim']
